@@ -210,6 +210,221 @@ fn case_beautify(c: &J, peers: &Peers) -> J {
     }
 }
 
+fn b32_encode(data: &[u8]) -> String {
+    const A: &[u8] = b"abcdefghijklmnopqrstuvwxyz234567";
+    let mut out = String::new();
+    let (mut bits, mut nbits) = (0u32, 0);
+    for b in data {
+        bits = (bits << 8) | *b as u32;
+        nbits += 8;
+        while nbits >= 5 {
+            nbits -= 5;
+            out.push(A[((bits >> nbits) & 31) as usize] as char);
+        }
+    }
+    if nbits > 0 {
+        out.push(A[((bits << (5 - nbits)) & 31) as usize] as char);
+    }
+    out
+}
+
+fn varint(mut v: u64) -> Vec<u8> {
+    let mut o = vec![];
+    loop {
+        let b = (v & 0x7f) as u8;
+        v >>= 7;
+        if v == 0 {
+            o.push(b);
+            break;
+        }
+        o.push(b | 0x80);
+    }
+    o
+}
+
+/// CIDv1 text built independently of the code under test
+fn make_cid(codec: u64, hash_code: u64, digest: &[u8]) -> String {
+    let mut raw = vec![1u8];
+    raw.extend(varint(codec));
+    raw.extend(varint(hash_code));
+    raw.extend(varint(digest.len() as u64));
+    raw.extend_from_slice(digest);
+    format!("b{}", b32_encode(&raw))
+}
+
+fn cid_values(peers: &Peers) -> Vec<J> {
+    let _ = peers;
+    vec![
+        json!("test"), json!([1, 2, 3]), json!(1), json!({"key": 42}), json!({"b": [1, {"z": null, "a": true}], "a": "x"}),
+        json!(null), json!([]), json!({"a": 1.5, "c": -7, "b": "\u{00e9}\n"}),
+    ]
+}
+
+/// C25: canonical content ids and the verification decision table
+fn case_cid(c: &J, peers: &Peers) -> J {
+    use sha2::Digest;
+    let vals = cid_values(peers);
+    let v = vals[(c["value"].as_u64().unwrap_or(0) as usize) % vals.len()].clone();
+    let other = vals[((c["value"].as_u64().unwrap_or(0) as usize) + 1) % vals.len()].clone();
+    if c["kind"].as_str() == Some("canon") {
+        // the id of a value must not depend on how the value was built
+        let jv: air_interpreter_value::JValue = v.clone().into();
+        let direct = air_interpreter_cid::value_to_json_cid(&jv).map(|c| c.get_inner().to_string()).unwrap_or_default();
+        let route = c["route"].as_str().unwrap_or("direct");
+        let built: air_interpreter_value::JValue = match route {
+            "reparsed" => serde_json::from_str(&v.to_string()).unwrap_or(air_interpreter_value::JValue::Null),
+            "pretty_reparsed" => serde_json::from_str(&serde_json::to_string_pretty(&v).unwrap_or_default()).unwrap_or(air_interpreter_value::JValue::Null),
+            "reversed_insertion" => rebuild(&v, true),
+            "forward_insertion" => rebuild(&v, false),
+            "via_std_value" => air_interpreter_value::JValue::from(&v),
+            _ => jv.clone(),
+        };
+        let cid2 = air_interpreter_cid::value_to_json_cid(&built).map(|c| c.get_inner().to_string()).unwrap_or_default();
+        let ov: air_interpreter_value::JValue = other.into();
+        let cid_other = air_interpreter_cid::value_to_json_cid(&ov).map(|c| c.get_inner().to_string()).unwrap_or_default();
+        // independent: blake3 over the canonical (sorted keys, compact) serde_json text
+        let indep = make_cid(0x0200, 0x1e, fluence_blake3::hash(v.to_string().as_bytes()).as_bytes());
+        return json!({"same_as_direct": cid2 == direct, "differs_from_other": direct != cid_other, "matches_independent": direct == indep});
+    }
+    let text = v.to_string();
+    let bytes = text.as_bytes();
+    let b3 = fluence_blake3::hash(bytes).as_bytes().to_vec();
+    let s2 = sha2::Sha256::digest(bytes).to_vec();
+    let ob3 = fluence_blake3::hash(other.to_string().as_bytes()).as_bytes().to_vec();
+    let cid = match c["mutation"].as_str().unwrap_or("") {
+        "exact_blake3" => make_cid(0x0200, 0x1e, &b3),
+        "exact_sha2" => make_cid(0x0200, 0x12, &s2),
+        "sha3_code" => make_cid(0x0200, 0x16, &s2),
+        "identity_code" => make_cid(0x0200, 0x00, bytes),
+        "truncated_blake3" => make_cid(0x0200, 0x1e, &b3[..16]),
+        "truncated_sha2" => make_cid(0x0200, 0x12, &s2[..20]),
+        "bitflip" => {
+            let mut d = b3.clone();
+            d[31] ^= 1;
+            make_cid(0x0200, 0x1e, &d)
+        }
+        "first_bitflip" => {
+            let mut d = s2.clone();
+            d[0] ^= 0x80;
+            make_cid(0x0200, 0x12, &d)
+        }
+        "other_value" => make_cid(0x0200, 0x1e, &ob3),
+        "codec_raw" => make_cid(0x55, 0x1e, &b3),
+        "codec_cbor" => make_cid(0x71, 0x12, &s2),
+        "garbage" => "this-is-not-a-cid".to_string(),
+        "empty" => String::new(),
+        "swapped_hash_code" => make_cid(0x0200, 0x12, &b3),
+        _ => make_cid(0x0200, 0x1e, &b3),
+    };
+    let typed = {
+        let cidt: air_interpreter_cid::CID<J> = air_interpreter_cid::CID::new(cid.clone());
+        let vv = v.clone();
+        match std::panic::catch_unwind(move || air_interpreter_cid::verify_value(&cidt, &vv).is_ok()) {
+            Ok(true) => "accept",
+            Ok(false) => "reject",
+            Err(_) => "panic",
+        }
+    };
+    let raw = {
+        let cidr: air_interpreter_cid::CID<J> = air_interpreter_cid::CID::new(cid.clone());
+        let t = text.clone();
+        match std::panic::catch_unwind(move || air_interpreter_cid::verify_raw_value(&cidr, t.as_bytes()).is_ok()) {
+            Ok(true) => "accept",
+            Ok(false) => "reject",
+            Err(_) => "panic",
+        }
+    };
+    json!({"typed": typed, "raw": raw})
+}
+
+fn rebuild(v: &J, reversed: bool) -> air_interpreter_value::JValue {
+    use air_interpreter_value::JValue;
+    match v {
+        J::Object(o) => {
+            let mut kv: Vec<(&String, &J)> = o.iter().collect();
+            if reversed {
+                kv.reverse();
+            }
+            JValue::object_from_pairs(kv.into_iter().map(|(k, x)| (k.as_str(), rebuild(x, reversed))))
+        }
+        J::Array(a) => JValue::array_from_iter(a.iter().map(|x| rebuild(x, reversed))),
+        other => JValue::from(other),
+    }
+}
+
+/// C27: codec tags and envelope table
+fn case_codec(c: &J, b: &Base, peers: &Peers) -> J {
+    use air_interpreter_interface::{CallRequestsRepr, CallResultsRepr};
+    use air_interpreter_sede::{FromSerialized, ToSerialized};
+    let _ = peers;
+    let payload = c["payload"].as_str().unwrap_or("results");
+    if payload == "envelope" {
+        let mut d = b.a2.clone();
+        let env = InterpreterDataEnvelope::try_from_slice(&d).expect("honest envelope");
+        let inner_len = env.inner_data.len();
+        let n = d.len();
+        if c["outer"].as_str() == Some("corrupt") {
+            // damage the msgpack map header / version strings at the front
+            for i in 0..6.min(n) {
+                d[i] = 0xc1;
+            }
+        }
+        if c["inner"].as_str() == Some("corrupt") {
+            // damage the middle of the inner (rkyv) data, which sits at the end of the envelope
+            let start = n - inner_len / 2 - 8;
+            for i in start..(start + 16).min(n) {
+                d[i] ^= 0xff;
+            }
+        }
+        let versions = InterpreterDataEnvelope::try_get_versions(&d).is_ok();
+        let full = match InterpreterDataEnvelope::try_from_slice(&d) {
+            Ok(e) => {
+                let d2 = e.inner_data.to_vec();
+                std::panic::catch_unwind(move || InterpreterData::try_from_slice(&d2).is_ok()).unwrap_or(false)
+            }
+            Err(_) => false,
+        };
+        return json!({"versions_readable": versions, "decodes": full});
+    }
+    let mut results = CallResults::new();
+    results.insert("1".into(), CallServiceResult { ret_code: 0, result: "[1,2]".into() });
+    results.insert("7".into(), CallServiceResult { ret_code: 3, result: "\"e\"".into() });
+    let good: Vec<u8> = if payload == "results" {
+        CallResultsRepr.serialize(&results).expect("ser").to_vec()
+    } else {
+        // a real request map from the base history
+        let o = net::run_raw(peers, &b.script, &[], &b.a2, "A", "B", "particle-1", &Limits::default(), &CallResults::new());
+        o.reqs_bytes
+    };
+    let body: Vec<u8> = good[2..].to_vec();
+    let mut bytes: Vec<u8> = match c["tag"].as_str().unwrap_or("right") {
+        "right" => good.clone(),
+        "json" => [vec![0x80u8, 0x04], body.clone()].concat(),
+        "cbor" => [vec![0x71u8], body.clone()].concat(),
+        "absent" => body.clone(),
+        "truncated" => vec![good[0]],
+        "empty" => vec![],
+        _ => good.clone(),
+    };
+    if c["body"].as_str() == Some("corrupt") && bytes.len() > 6 {
+        let n = bytes.len();
+        bytes[n - 3] = 0xc1;
+        bytes[2] = 0xc1;
+    }
+    let ok = if payload == "results" {
+        match CallResultsRepr.deserialize(&bytes) {
+            Ok(m) => m.len() == 2 && m.get("1").map(|r| r.result == "[1,2]").unwrap_or(false) && m.get("7").map(|r| r.ret_code == 3).unwrap_or(false),
+            Err(_) => false,
+        }
+    } else {
+        match (CallRequestsRepr.deserialize(&bytes), CallRequestsRepr.deserialize(&good)) {
+            (Ok(m), Ok(g)) => m == g,
+            _ => false,
+        }
+    };
+    json!({"decoded_exactly": ok})
+}
+
 /// C18: a failing (or not failing) instruction K in a context, run uncaught (U) and caught by an xor (C)
 fn xor_kind_text(kind: &str, a: &str) -> String {
     match kind {
@@ -508,6 +723,8 @@ pub fn cmd_fn(args: &[String]) -> i32 {
             "text" => case_text(&c, &peers),
             "runscript" => case_runscript(&c, &peers),
             "xor" => case_xor(&c, &peers),
+            "cid" => case_cid(&c, &peers),
+            "codec" => case_codec(&c, &b, &peers),
             "bytes" => case_bytes(&c, &b, &peers),
             other => json!({"res": format!("unknown family {other}")}),
         };
